@@ -419,6 +419,72 @@ def _feeds_parser(F, b):
     return False
 
 
+LOCS_AUDITED = {
+    # (node kind, insert_* call made for the same node) -> reason
+    ("stmt_node", "insert_branch_stmt_node"): "branch statements carry no location; the two readers that unwrap stmt_node_loc take their node from iter_match_stmt_node",
+}
+
+
+def rule_locs(F):
+    """M-LOCS: every syntax-node kind whose location the semantic checks unwrap is given a location by every grammar
+    action that creates such a node."""
+    res = RuleResult("M-LOCS")
+    # readers: K_loc(..) whose result reaches Option::unwrap / expect in the same body
+    unwrapped = {}
+    for p, b in F.bodies.items():
+        if "grammar::" in p:
+            continue
+        srcs = {}
+        for bb, t in b.calls():
+            m = re.match(r"^eqlog_eqlog::Eqlog::(\w+)_loc$", short(callee(t)))
+            if m and not m.group(1).startswith("insert_"):
+                srcs[t["dest"][0]] = m.group(1)
+        if not srcs:
+            continue
+        tn = Taint(b, srcs)
+        for bb, t in b.calls():
+            c = short(callee(t))
+            if re.search(r"Option::(unwrap|expect)$", c):
+                for lab in tn.read_op(t["args"][0]):
+                    unwrapped.setdefault(lab, []).append(b.where(bb))
+    if len(unwrapped) < 3:
+        raise AnchorError("fewer than 3 node kinds with unwrapped locations found (%s)" % sorted(unwrapped))
+    acts = [p for p in F.bodies if re.search(r"grammar::.*__action\d+", p)]
+    if len(acts) < 100:
+        raise AnchorError("grammar actions not found in the MIR facts (%d)" % len(acts))
+    created = {}
+    for p in sorted(acts):
+        b = F.bodies[p]
+        news, ins, others = {}, {}, []
+        for bb, t in b.calls():
+            c = short(callee(t))
+            m = re.match(r"^eqlog_eqlog::Eqlog::new_(\w+)$", c)
+            if m:
+                news[m.group(1)] = news.get(m.group(1), 0) + 1
+            m = re.match(r"^eqlog_eqlog::Eqlog::insert_(\w+)_loc$", c)
+            if m:
+                ins[m.group(1)] = ins.get(m.group(1), 0) + 1
+            elif re.match(r"^eqlog_eqlog::Eqlog::insert_(\w+)$", c):
+                others.append(c.rsplit("::", 1)[-1])
+        for k, n in news.items():
+            if k not in unwrapped:
+                continue
+            created[k] = created.get(k, 0) + n
+            if ins.get(k, 0) >= n:
+                res.ok(n)
+            elif any((k, o) in LOCS_AUDITED for o in others):
+                res.ok(n)
+                res.count("audited_exceptions")
+            else:
+                res.bad("M-LOCS:%s:created-without-location" % k, b.where(), "grammar action %s creates a %s without inserting its location; %d sites unwrap %s_loc (e.g. %s)"
+                        % (p.rsplit("::", 1)[-1], k, len(unwrapped[k]), k, unwrapped[k][0]))
+    for k in unwrapped:
+        if created.get(k, 0) == 0:
+            res.notes.append("no grammar action creates %s" % k)
+    res.sample({"kinds_with_unwrapped_location": {k: len(v) for k, v in unwrapped.items()}, "created_by_grammar_actions": created})
+    return res
+
+
 def rule_funcdom(F):
     """M-FUNCDOM: element-allocating conclusions arise only from non-surjective then-statements."""
     res = RuleResult("M-FUNCDOM")
